@@ -38,6 +38,7 @@ def run(rep):
 
     e2part.run_e2(rep, 'C02')
 
+    rep.assumption('distinct_nontrivial = executions with pairwise different timed wire traces (every message sent / delivered / dropped with its virtual time), per scenario; distinct_outcomes = distinct per-filter process() input sequences per scenario')
     rep.set('traces_validated_against_impl', rep.coverage.get('evaluations', 0))
-    rep.set('distinct_nontrivial', rep.coverage.get('distinct_outcomes', 0))
+    rep.set('distinct_nontrivial', rep.coverage.get('distinct_timed_wire_traces', 0))
     rep.set('exhaustive', not rep.capped)
